@@ -61,6 +61,19 @@ func lcRPC(kind string, idx, rounds int, r *Rng) string {
 		h.calls = append(h.calls, c)
 		return c
 	}
+	// the erroring producer is released only once it is really parked in front of its error block (under load it
+	// may get there late: releasing "nobody" would leave it parked and the Stop callers waiting)
+	releaseProducer := func() {
+		lcWaitTrace(3*time.Second, func([]dastard.VerifEvent) bool {
+			for _, w := range dastard.VerifParked() {
+				if w.Site == "prod.sendError" {
+					return true
+				}
+			}
+			return false
+		})
+		h.release("P")
+	}
 	for rd := 0; rd < rounds; rd++ {
 		s := startRPC()
 		if !s.wait(3*time.Second) || s.ret != 0 {
@@ -76,7 +89,7 @@ func lcRPC(kind string, idx, rounds int, r *Rng) string {
 		}
 		when := r.Intn(3) // 0: the source ends by itself before the Stops, 1: while they are in flight, 2: after they were issued
 		if kind == "err" && when == 0 {
-			h.release("P")
+			releaseProducer()
 			lcWaitTrace(time.Second, func(tr []dastard.VerifEvent) bool {
 				return lcCount(tr, "run.deactivate") > rd
 			})
@@ -87,17 +100,23 @@ func lcRPC(kind string, idx, rounds int, r *Rng) string {
 		for i := 0; i < k; i++ {
 			ks = append(ks, stopRPC())
 			if kind == "err" && when == 1 && i == 0 {
-				h.release("P")
+				releaseProducer()
 			}
 		}
 		if kind == "err" && when == 2 {
 			lcSettle()
-			h.release("P")
+			releaseProducer()
 		}
+		allBack := true
 		for _, c := range ks {
-			c.wait(3 * time.Second)
+			if !c.wait(3 * time.Second) {
+				allBack = false
+			}
 		}
 		lcSettle()
+		if !allBack {
+			break // a Stop request is still in flight: no further Start (the oracle reports the hang)
+		}
 	}
 	if h.ds == nil {
 		h.ds = dastard.NewErroringSource()
